@@ -32,6 +32,11 @@ PROP = {
         H("c03_reader_data_then_hb", _rd, "real Reader: one arbitrary DATA then HEARTBEAT(first,last,count,final): answered iff required, base <= lowest unknown, every requested SN unknown and inside [first,last], lowest missing requested", "SNs 1..W, counts 1..4", tier="thorough", timeout=2400),
         H("c03_reader_gap_then_hb", _rd, "same after one arbitrary GAP (start, base, 2-bit bitmap)", "SNs 1..W", tier="thorough", timeout=2400),
         H("c03_reader_hb_then_hb", _rd, "two HEARTBEATs: both answers truthful, base and count monotone, duplicate count ignored", "SNs 1..W, counts 1..4", tier="thorough", timeout=2400),
+        H("c03_proxy_step_top", _wp, "one proxy step (DATA / GAP single / GAP range / HEARTBEAT.first) from ANY valid state whose window ends at i64::MAX: no panic or overflow, known set = pre ∪ op, frontier monotone and exact while an unknown SN is left", "window of W+2 SNs ending at i64::MAX; <= CAP out-of-order entries", timeout=900),
+        H("c03_reader_hb_extreme_top", _rd, "real Reader, fresh matched proxy, ONE HEARTBEAT whose firstSN/lastSN sit at the top of the i64 range (what a hostile or broken peer can put on the wire; C06's 'extreme in its numeric fields' on the HEARTBEAT path): no panic or overflow, exactly one ACKNACK, base == firstSN, lowest missing SN requested, no more SNs requested than advertised", "first = i64::MAX - a, last = first + w, 0 <= w <= a <= 3; final flag free", timeout=900),
+        H("c03_reader_partial_fragment_g2_hb", _rd, "real Reader, concrete prefix: fragment 2 of 3 of SN 1 arrived; symbolic HEARTBEAT(1..last<=3, final flag free): ACKNACK base == 1, exactly the wholly missing SNs requested, NACKFRAG for SN 1 names exactly fragments 1 and 3, counts differ", "3 fragments of 4 bytes; last in 1..3", tier="thorough", timeout=2400),
+        H("c03_reader_partial_fragment_g1_hb", _rd, "same with fragment 1 arrived", "3 fragments of 4 bytes; last in 1..3", tier="thorough", timeout=2400),
+        H("c03_reader_partial_fragment_g3_hb", _rd, "same with fragment 3 arrived", "3 fragments of 4 bytes; last in 1..3", tier="thorough", timeout=2400),
         H("c03_reader_partial_fragment_hb", _rd, "real Reader: SN 1 arrived only in part (one of three fragments, chosen symbolically), SNs 2..3 missing; HEARTBEAT(1..3): ACKNACK base <= 1, {2,3} requested, NACKFRAG for SN 1 names exactly the two missing fragments, counts differ", "3 fragments of 4 bytes", tier="thorough", timeout=2400),
         H("c03_reader_hb_fresh", _rd, "fresh matched writer, HEARTBEAT(first,last,final) symbolic: answered iff required, base <= first, requested SNs inside [first,last], lowest missing requested", "first in 1..4, last in first-1..4"),
     ],
